@@ -89,6 +89,12 @@ CLAIMED = {
         text="Unbounded theorems: the input loop accepts a list of glyph inputs exactly when their glyph names are pairwise distinct, so an accepted build maps sources to glyphs injectively (nothing merged, nothing missing); accepted master sets are non-empty, have unique source names per master and equal name sets. Tied to write_font by running the real acceptance on generated sequence lists. End to end through the real CLI: each defect class (duplicate codepoints/sequence/file name, colliding glyph names, malformed XML, unparsable colour, unknown spreadMethod, palette index conflict, oversize CBDT bitmap, missing viewBox) at random positions among 0-5 valid sources in every format it applies to must exit non-zero and leave no fresh font; a valid control must build. Found and fixed: duplicate inputs were merged silently with exit 0 (F2).",
         ref="DESIGN.md 8 C17",
     ),
+    "C18": dict(
+        technique="machine-checked proof in Coq (designspace axis range contains every master; non-negative weighted sums are monotone, hence interpolated clip boxes contain interpolated geometry on an axis) + real CLI multi-master builds instantiated at master and intermediate locations",
+        category="other",
+        text="Partial by nature: interpolation is ufo2ft.compileVariableTTF / fontTools.varLib. Proved: the axis range written to the designspace contains every master position; for any number of masters and non-negative weights an edge-wise inequality between master values survives interpolation (the convexity argument for 'the clip box in force contains the interpolated geometry' on one axis, assuming the engine interpolates piecewise linearly between adjacent masters). End to end through the real CLI: two- and three-master configurations with structurally identical sources are built; the variable font is instantiated with fontTools' instancer at every master location and compared (COLR picture, advance, clip box evaluated from COLR's own variation store) with the static CLI build of that master; at intermediate locations the interpolated clip box must contain the interpolated outlines; masters with different source sets must fail.",
+        ref="DESIGN.md 8 C18",
+    ),
     "C19": dict(
         technique="machine-checked proof in Coq (isometry invariance of the exact normal form over any field; reuse-is-taken theorem on the cache model) + end-to-end count of shared outlines in built fonts",
         text="Unbounded theorems over any field: the exact normal form used to recognise shapes (first significant vector to (1,0), first significant y to 1) is invariant under every rotation and reflection (c^2+s^2=1), norms that drive the significance thresholds are preserved, translations do not enter; on the cache model reuse is taken whenever a donor with the same normal form exists and the recogniser returns a representable affine, and only tolerance -1 disables it. End to end: fonts built from a few structurally different base shapes and congruent copies (exact grid isometries and generic angles) in glyf_colr_1, glyf_colr_0 and picosvg: every copy must draw from one outline glyph / one <path>, and with -1 all are separate. Known finding F14: picosvg snaps the normal form to multiples of tolerance/10, so copies whose normal form has a coordinate on a rounding boundary are missed.",
